@@ -447,6 +447,96 @@ fn run(c: &mut Case) {
             }
         }
     }
+    // ---------------------------------------------------------------- (b'): a tolerated kind stays impossible through
+    // recoveries. A valid document gets a few ids replaced (by unknown ids or other known ones) and a run of zero bytes
+    // inserted at an element boundary (0x00 where a size field should start is an error under every setting); it is read
+    // byte by byte from a source that reports a one-shot end of file (Ok(0)) inside the junk, so that the first
+    // try_recover() runs out of input and has to be repeated. The caller answers every error with try_recover() and goes
+    // on. Whatever else happens, no error of a tolerated kind may ever be reported, and no raw tag unless unknown ids
+    // are tolerated.
+    if c.idx % 6 == 3 {
+        let mut m = Mix::MOSTLY_VALID;
+        m.small = c.rng.chance(1, 2);
+        m.p_unknown = 0;
+        let inp = crate::props::inputs::gen_valid(&mut c.rng, c.tier, &m);
+        inp.spec.install();
+        if inp.lay.len() >= 3 && inp.bytes.len() <= 4096 {
+            let n_ids = c.rng.urange(1, 3);
+            let (mut bytes, _kinds) = crate::mutate::mutate_ids_only(&mut c.rng, &inp.spec, &inp.bytes, &inp.lay, n_ids);
+            let at = inp.lay[c.rng.urange(1, inp.lay.len() - 1)].off;
+            let jl = c.rng.urange(2, 12);
+            bytes.splice(at..at, std::iter::repeat(0u8).take(jl));
+            let allow = c.rng.below(8) as u8;
+            let cfg = RCfg { allow, buffered: vec![], capacity: *c.rng.pick(&[None, Some(16), Some(64)]), max_size: MaxSz::Set(Some(1 << 20)), eof_end: c.rng.chance(1, 2) };
+            let blip = at + c.rng.urange(1, jl);
+            let src = crate::io::ScriptedRead::new(bytes.clone()).with_chunks(vec![], 1).with_blips(vec![blip]);
+            let len = bytes.len();
+            let mut it = crate::rd::make_iter(src, &cfg);
+            let mut log: Vec<String> = Vec::new();
+            let mut items = 0usize;
+            let mut problem: Option<(String, String)> = None;
+            let mut nones = 0;
+            for _ in 0..(6 * len + 64) {
+                it.get_mut().begin_api_call();
+                match crate::rd::next_ev(&mut it, crate::rd::step_budget(len, items)) {
+                    Ev::Item(i, _) => {
+                        items += 1;
+                        if i.is_raw() && allow & ALLOW_IDS == 0 {
+                            problem = Some(("raw-tag-without-tolerance".into(), format!("raw tag {} emitted although unknown ids are not tolerated", i.short())));
+                            break;
+                        }
+                    }
+                    Ev::None => {
+                        nones += 1;
+                        if it.get_ref().exhausted() || nones > 4 {
+                            break;
+                        }
+                    }
+                    Ev::Caught(_) => break, // panics and budgets are C05's subject
+                    Ev::Err(e) => {
+                        if log.len() < 40 {
+                            log.push(e.short());
+                        }
+                        if let Some((_, kind, _)) = KIND_OF_CLASS.iter().find(|(_, kind, bit)| *bit != 0 && allow & bit != 0 && e.kind() == *kind) {
+                            problem = Some((format!("{}", kind), format!("{} reported although it is tolerated (set {}): {}", kind, allow, e.short())));
+                            break;
+                        }
+                        // answer with try_recover(), twice if the first one runs into the temporary end of file
+                        let mut gave_up = false;
+                        for _ in 0..3 {
+                            it.get_mut().begin_api_call();
+                            match crate::rd::recover_ev(&mut it, crate::rd::step_budget(len, items)) {
+                                Ok(Ok(())) => break,
+                                Ok(Err(_)) => {
+                                    c.count("recoveries_that_ran_out_of_input");
+                                    if it.get_ref().exhausted() {
+                                        gave_up = true;
+                                        break;
+                                    }
+                                }
+                                Err(_) => {
+                                    gave_up = true;
+                                    break;
+                                }
+                            }
+                        }
+                        if gave_up {
+                            break;
+                        }
+                    }
+                }
+            }
+            c.eval();
+            c.count("tolerant_parses_with_recovery");
+            if let Some((what, msg)) = problem {
+                c.violation(
+                    format!("C13/tolerated-kind-after-recovery/{}/allow{}", what, allow),
+                    msg.clone(),
+                    inp.to_json().set("damaged_bytes", J::hex(&bytes)).set("junk_at", J::u(at)).set("junk_len", J::u(jl)).set("temporary_eof_at", J::u(blip)).set("config", cfg.to_json()).set("errors_seen", J::Arr(log.iter().map(|x| J::s(x.clone())).collect())).set("problem", J::s(msg)),
+                );
+            }
+        }
+    }
     // ---------------------------------------------------------------- (b) (e): tolerant parses extend the strict one
     {
         let mut m = Mix::ALL;
